@@ -144,7 +144,7 @@ func runChildMain(role, dir, scenarioJSON string) {
 		if s.Err != nil {
 			continue
 		}
-		wctx, cancel := context.WithTimeout(ctx, 60*time.Second)
+		wctx, cancel := context.WithTimeout(ctx, 300*time.Second)
 		_, err := ws.Wait(wctx, s.Result.ID)
 		cancel()
 		if err != nil {
@@ -159,7 +159,7 @@ func runChildMain(role, dir, scenarioJSON string) {
 func childCmd(role, dir string, sc *Scenario, straceArgs ...string) *exec.Cmd {
 	args := []string{}
 	bin := os.Args[0]
-	childArgs := []string{"-test.run=^TestRunChild$", "-test.timeout=120s", "-mc.role=" + role, "-mc.killdir=" + dir, "-mc.childscenario=" + sc.JSON()}
+	childArgs := []string{"-test.run=^TestRunChild$", "-test.timeout=900s", "-mc.role=" + role, "-mc.killdir=" + dir, "-mc.childscenario=" + sc.JSON()}
 	var cmd *exec.Cmd
 	if len(straceArgs) > 0 {
 		args = append([]string{"-f"}, straceArgs...)
